@@ -16,6 +16,7 @@ import (
 	"strconv"
 	"strings"
 	"sync"
+	"time"
 
 	"github.com/gregoryv/mq"
 )
@@ -114,6 +115,14 @@ func oracle(prop string, seed int64, n int, args []string) int {
 		fmt.Fprintln(os.Stderr, "no oracle for", prop)
 		return 2
 	}
+	curReport = r
+	// overall deadline: an oracle that stops making progress is itself a finding
+	go func() {
+		time.Sleep(40 * time.Minute)
+		r.fail("oracle-deadline", prop, "the oracle did not finish within 40 minutes")
+		r.finish()
+		os.Exit(1)
+	}()
 	f(r, newG(seed), n, single)
 	return r.finish()
 }
@@ -327,6 +336,25 @@ func oracleC15(r *report, g *G, n int, single string) {
 			r.eval("bytes3-5", true, hexs(bs))
 		}
 	}
+	for l := 5; l <= 12; l++ {
+		for _, fill := range []byte{0x80, 0xff} {
+			for _, last := range []byte{0x00, 0x7f, 0x80} {
+				bs := append(bytesRepeat(fill, l-1), last)
+				checkVbBytes(r, bs)
+				r.eval("long-continuation", true, hexs(bs))
+			}
+		}
+	}
+	// decoding into a receiver that already holds a value gives the decoded value, not a mixture
+	for _, v := range vbBoundaries {
+		for _, old := range []uint64{5, 128, 268435455} {
+			got, _, err := mq.VerifWireDecode(mq.VerifVb, mq.VerifValue{N: old}, vbEnc(v))
+			if err != nil || got.N != v {
+				r.fail("vb-receiver-state", fmt.Sprintf("WDEC vb N%d %s", old, hexs(vbEnc(v))), fmt.Sprintf("decoded %d err %v, want %d", got.N, err, v))
+			}
+			r.eval("receiver", true, fmt.Sprintf("%d/%d", old, v))
+		}
+	}
 	r.sample(map[string]interface{}{"bytes": "ffffffff01", "expect": "rejected by both decoders"})
 	// cross-check through the public API
 	for _, v := range vbBoundaries {
@@ -405,7 +433,31 @@ func (o readOutcome) verdict() string {
 	return "E" + o.err
 }
 
+// readOnce runs ReadPacket under a watchdog: a call that does not return ends the
+// whole oracle run with a failing input (the stuck goroutine cannot be stopped).
 func readOnce(r *scriptReader) (o readOutcome) {
+	var in []byte
+	for _, c := range r.chunks {
+		in = append(in, c.bs...)
+	}
+	done := make(chan readOutcome, 1)
+	go func() { done <- readOnceRaw(r) }()
+	select {
+	case o = <-done:
+		return o
+	case <-time.After(caseTimeout):
+		if curReport != nil {
+			curReport.fail("decode-timeout", "R 1 "+hexs(in), "ReadPacket did not return within the watchdog limit")
+			curReport.finish()
+		}
+		os.Exit(1)
+	}
+	return
+}
+
+var curReport *report
+
+func readOnceRaw(r *scriptReader) (o readOutcome) {
 	o.kind = -1
 	defer func() {
 		if e := recover(); e != nil {
@@ -624,6 +676,20 @@ func oracleDecode(r *report, g *G, n int, single string, bounded bool) {
 	}
 	if bounded {
 		oracleAlloc(r, g)
+		// a remaining length that never ends: the header reader must give up after five bytes
+		for _, k := range []int{5, 6, 9, 10, 11, 64, 1000, 65536} {
+			for _, fill := range []byte{0x80, 0xff, 0x81} {
+				stream := append([]byte{byte(g.pick(256))}, bytesRepeat(fill, k)...)
+				stream = append(stream, 0x00, 0x00)
+				rd := oneChunk(stream)
+				o := readOnce(rd)
+				c := fmt.Sprintf("R 1 %02x + %d x %02x + 0000", stream[0], k, fill)
+				if o.kind >= 0 || rd.got > 6 {
+					r.fail("header-unbounded", "R 1 "+trunc(hexs(stream)), fmt.Sprintf("%s: consumed %d bytes, result %s", c, rd.got, trunc(o.verdict())))
+				}
+				r.eval("long-header", true, c)
+			}
+		}
 	}
 	g.hostileFrames(n, check)
 	r.sample(map[string]string{"case": "R 1 400100", "expect": "error, no panic"})
@@ -645,6 +711,14 @@ func oracleAlloc(r *report, g *G) {
 		}
 		r.eval("alloc", true, "alloc"+hexs(f))
 	}
+}
+
+func bytesRepeat(b byte, n int) []byte {
+	out := make([]byte, n)
+	for i := range out {
+		out[i] = b
+	}
+	return out
 }
 
 func corpusLines(suite string) []string {
@@ -1105,6 +1179,51 @@ func roundTrip(r *report, k int, cs []string) {
 	r.eval(fmt.Sprintf("type%d-rl%d", k, rlForm), len(cs) > 0, c)
 }
 
+type kcs struct {
+	k  int
+	cs []string
+}
+
+// boundaryCases builds, for every packet type with a string field, packets whose remaining
+// length is exactly 126..129 and 16382..16385: the sizes at which the remaining-length field
+// changes form (also hits property-length boundaries on the way).
+func boundaryCases(g *G) []kcs {
+	grow := map[int]string{1: "SetClientID", 2: "SetReasonString", 3: "SetPayload", 4: "SetReasonString", 5: "SetReasonString",
+		6: "SetReasonString", 7: "SetReasonString", 8: "AddFilter", 9: "SetReasonString", 10: "AddUnsubFilter",
+		11: "SetReasonString", 14: "AddUserProp", 15: "SetAuthMethod"}
+	var out []kcs
+	for k, setter := range grow {
+		mk := func(n int) []string {
+			v := hexs(bytesRepeat('a', n))
+			switch setter {
+			case "AddFilter":
+				return []string{"SetPacketID:3", "AddFilter:" + v + ":1"}
+			case "AddUserProp":
+				return []string{"AddUserProp:6b:" + v}
+			case "SetPayload":
+				return []string{"SetTopicName:74", "SetPayload:" + v}
+			}
+			return []string{setter + ":" + v}
+		}
+		base := func(n int) int {
+			rl, _ := splitFrame(frameOf(build(k, mk(n))))
+			return rl
+		}
+		for _, target := range []int{126, 127, 128, 129, 16382, 16383, 16384, 16385} {
+			// the remaining length grows by one per byte of the value, except where a property
+			// length changes form: search the neighbourhood
+			guess := target - base(1) + 1
+			for d := -3; d <= 3; d++ {
+				if n := guess + d; n >= 1 && n <= 65535 && base(n) == target {
+					out = append(out, kcs{k, mk(n)})
+					break
+				}
+			}
+		}
+	}
+	return out
+}
+
 func trunc(s string) string {
 	if len(s) > 300 {
 		return s[:300] + "..."
@@ -1163,6 +1282,9 @@ func oracleC01(r *report, g *G, n int, single string) {
 	}
 	for _, l := range []int{100, 127, 128, 16383 - 10, 16384, 2097151 - 10, 2097152 + 10, 3000000} {
 		roundTrip(r, 3, []string{"SetTopicName:74", "SetPayload:" + hexs(g.bytesN(l))})
+	}
+	for _, bc := range boundaryCases(g) {
+		roundTrip(r, bc.k, bc.cs)
 	}
 	r.sample(map[string]string{"case": "H 1 SetWill:[SetRetain:1;SetQoS:2;SetTopicName:74] SetUsername:75", "check": "write, read, all accessors equal, re-encode identical"})
 }
@@ -1259,6 +1381,9 @@ func oracleC10(r *report, g *G, n int, single string) {
 		}
 		g.domain = false
 		check(k, cs)
+	}
+	for _, bc := range boundaryCases(g) {
+		check(bc.k, bc.cs)
 	}
 	r.sample(map[string]string{"case": "W 4 S3:7 SetPacketID:1", "expect": "one Write of the whole frame, n=3, err=injected"})
 }
@@ -2286,9 +2411,9 @@ func oracleC13(r *report, g *G, n int, single string) {
 		k := g.kind()
 		g.big = false
 		cs := g.domainCalls(k)
-		p := build(k, cs)
-		want := frameOf(p)
-		wantS, wantD, _ := renderBoth(p)
+		// p is touched by the goroutines only: what it should produce is computed on a
+		// twin q built by the same calls, so that no sequential operation "warms up" p
+		p, q := build(k, cs), build(k, cs)
 		var shared *mq.Publish
 		if c, ok := p.(*mq.Connect); ok {
 			shared = c.Will() // also used directly by other goroutines
@@ -2296,9 +2421,12 @@ func oracleC13(r *report, g *G, n int, single string) {
 				// the program went on using the will message after attaching it
 				for _, call := range g.calls(3, 1+g.pick(3)) {
 					applyCall(shared, call)
+					applyCall(q.(*mq.Connect).Will(), call)
 				}
 			}
 		}
+		want := frameOf(q)
+		wantS, wantD, _ := renderBoth(q)
 		// frames read concurrently from private streams, with their sequential results
 		var frames [][]byte
 		var verdicts []string
@@ -2312,8 +2440,6 @@ func oracleC13(r *report, g *G, n int, single string) {
 			frames = append(frames, f)
 			verdicts = append(verdicts, readOnce(oneChunk(f)).verdict())
 		}
-		want = frameOf(p)
-		wantS, wantD, _ = renderBoth(p)
 		c := "W " + strconv.Itoa(k) + " A" + sp(cs)
 		var wg sync.WaitGroup
 		seeds := make([]int64, workers)
@@ -2480,6 +2606,14 @@ func oracleC14(r *report, g *G, n int, single string) {
 				renderBoth(pool[i])
 				// decode some other (possibly odd) frame in between: nobody else may notice
 				readOnce(oneChunk(g.mutate(frames[g.pick(len(frames))])))
+				// frames carrying a property their type has no field for (accepted and dropped)
+				sid := byte(1 + g.pick(100))
+				for _, f := range [][]byte{{0x40, 6, 0, 9, 0, 2, 0x0b, sid}, {0x62, 6, 0, 9, 0, 2, 0x0b, sid},
+					{0x20, 5, 0, 0, 2, 0x0b, sid}, {0xe0, 4, 0, 2, 0x0b, sid}, {0x90, 6, 0, 1, 2, 0x0b, sid, 0},
+					{0xa2, 9, 0, 1, 2, 0x0b, sid, 0, 1, 'a'}, {0xf0, 4, 0, 2, 0x0b, sid},
+					{0x30, 8, 0, 1, 't', 2, 0x0b, sid, 'x', 'y'}} {
+					readOnce(oneChunk(f))
+				}
 			case 4: // UnmarshalBinary of another frame into this existing packet
 				j := g.pick(len(pool))
 				if kindOf(pool[j]) == kindOf(pool[i]) {
